@@ -33,6 +33,7 @@ def main():
         try:
             out = digest_case(case, logger=shared_logger)
         except PamsCrash as c:
+            shared_logger = RecLogger()  # an aborted run leaves its undelivered records in the logger: start the next run with a clean one
             out = {"crash": f"{c.innermost_pams_file()}:{c.exc_type}", "digest": f"crash:{c.innermost_pams_file()}:{c.exc_type}:{c.exc_msg}",
                    "settings_unchanged": True, "classes": [], "n_logs": 0, "records": 0, "tb": c.tb_text}
         except Exception as e:  # noqa: BLE001
